@@ -71,6 +71,14 @@ func Gen(t *rapid.T) Plan {
 			p.Max = p.Init
 			p.CfgStyle = rapid.IntRange(1, 2).Draw(t, "cfgstyle")
 		}
+
+		// larger buffers with a tiny or zero gap (a gap of 0 is a legal setting, not "unset")
+		if rapid.IntRange(0, 5).Draw(t, "biggap0") == 0 {
+			p.Init = rapid.SampledFrom([]int{20, 24, 40}).Draw(t, "biginit")
+			p.Max = p.Init * rapid.IntRange(1, 2).Draw(t, "bigmaxmul")
+			p.Gap = rapid.IntRange(0, 2).Draw(t, "biggap")
+			p.CfgStyle = 0
+		}
 	}
 
 	p.Types = rapid.IntRange(1, 2).Draw(t, "types")
